@@ -137,6 +137,26 @@ theorem gen_agrees_with_model_ord (o : Ord) (s a : NCell) :
   rw [(gen_ord_table (o.cmp s.v a.v) s.m a.m).1.2.2.2]
   cases h1 : s.m <;> cases h2 : a.m <;> simp [ordSpec, ordCode, h1, h2]
 
+/-- truth testing regenerated from `Qube.__bool__`: the decision list is the documented one -/
+theorem gen_bool_table : ∀ tAll tAny shaped masked : Bool,
+    Gen.Cmp.bool_gen tAll tAny shaped masked = boolSpec tAll tAny shaped masked := by decide
+
+/-- … and agrees with the hand-written `boolCode` the driver executes: for a comparison result (a flag is set) on any
+    element list; for a plain object on its single element (shapeless) or any list (with a shape) -/
+theorem gen_agrees_with_model_bool_flagged (tAll tAny shaped masked : Bool) (xs : List Cell) (h : tAll || tAny = true) :
+    (Gen.Cmp.bool_gen tAll tAny shaped masked).run xs = boolCode tAll tAny (!shaped) xs := by
+  rw [gen_bool_table]
+  cases tAll <;> cases tAny <;> simp_all [boolSpec, BoolOut.run, boolCode]
+
+theorem gen_agrees_with_model_bool_plain_shaped (masked : Bool) (xs : List Cell) :
+    (Gen.Cmp.bool_gen false false true masked).run xs = boolCode false false false xs := by
+  rw [gen_bool_table]; simp [boolSpec, BoolOut.run, boolCode]
+
+theorem gen_agrees_with_model_bool_plain_shapeless (c : Cell) :
+    (Gen.Cmp.bool_gen false false false c.m).run [c] = boolCode false false true [c] := by
+  rw [gen_bool_table]
+  cases h : c.m <;> simp [boolSpec, BoolOut.run, boolCode, h]
+
 /-- the regenerated lane functions agree observably with the hand-written model the driver runs -/
 theorem gen_agrees_with_model_tvl_any (xs : List Cell) :
     t3of (Gen.Red.tvl_any_arr (xs.map fun c => (c.v, c.m))) = (tvlAnyCode .array xs).t3 := by
